@@ -177,6 +177,10 @@ class InputsMachine(Machine):
         P['error_nan'][5, 7] = np.nan
         P['error_nan'][int(sc['srcs'][0][1]), int(sc['srcs'][0][0])] = np.inf
         P['mask'] = mask.copy()
+        P['mask0'] = np.zeros(data.shape, dtype=bool)      # nothing masked
+        P['error_ma'] = np.ma.MaskedArray(
+            np.abs(g.normal(1.0, 0.1, data.shape)) + 0.2,
+            mask=g.random(data.shape) < 0.02)
         P['background'] = g.normal(2.0, 0.1, data.shape)
         P['threshold'] = np.full(data.shape, 4.0)
         P['coverage'] = np.zeros(data.shape, bool)
@@ -248,10 +252,10 @@ class InputsMachine(Machine):
              'catalog_new', 'profile_new', 'psfphot_new', 'make_model_image',
              'model_eval', 'grouper', 'total_error', 'data_properties',
              'gini', 'cutout', 'ellipse', 'fit_gaussian', 'extract_stars',
-             'segm_reads', 'sky_apertures', 'actor_read', 'actor_read',
-             'actor_read']
+             'segm_reads', 'sky_apertures', 'image_depth', 'actor_read',
+             'actor_read', 'actor_read']
     WEIGHTS = [3, 2, 3, 3, 1, 4, 2, 2, 4, 2, 2, 1, 1, 3, 3, 3, 2, 1, 1, 1, 2,
-               1, 1, 0.3, 2, 1.5, 1.5, 1.5, 4, 4, 4]
+               1, 1, 0.3, 2, 1.5, 1.5, 1.5, 0.6, 4, 4, 4]
 
     def next_op(self, rng, st):
         if st.nsteps >= rng.randint(3, 9) and st.nsteps >= 3:
@@ -263,7 +267,9 @@ class InputsMachine(Machine):
         op = {'op': name, 'data': rng.pick(DATA_REPRS),
               'use_mask': rng.chance(0.5), 'use_error': rng.chance(0.5),
               'variant': rng.randrange(6), 'nan_error': rng.chance(0.5),
-              'opt': rng.randrange(8)}
+              'opt': rng.randrange(8),
+              'mask_kind': rng.wpick(['mask', 'mask0'], [4, 1]),
+              'error_kind': rng.wpick(['error', 'error_ma'], [4, 1])}
         if name == 'actor_read':
             op['actor'] = rng.pick(sorted(st.actors))
             op['pick'] = rng.randrange(1000)
@@ -319,8 +325,11 @@ class InputsMachine(Machine):
         st.fault_fired = False
         P = st.P
         data = P[op['data']]
-        mask = P['mask'] if op['use_mask'] else None
+        mask = P[op.get('mask_kind', 'mask')] if op['use_mask'] else None
         error = P['error'] if op['use_error'] else None
+        if error is not None and op.get('error_kind') == 'error_ma' and \
+                op['data'] != 'q':
+            error = P['error_ma']
         if op['data'] == 'q' and error is not None:
             error = P['error_q']
         elif error is not None and op.get('variant', 0) in (1, 4) and \
@@ -740,6 +749,18 @@ class InputsMachine(Machine):
             return ApertureStats(data, aper, wcs=w, error=error,
                                  mask=mask).to_table()
         return self._run(st, op, fn)
+
+    def _s_image_depth(self, st, op, data, mask, error):
+        from photutils.utils import ImageDepth
+        P = st.P
+        o = op.get('opt', 0)
+        if mask is None:
+            mask = P['mask0'] if o % 2 else P['mask']
+        if op['data'] in ('ma', 'ma0', 'q'):
+            data = P['clean']
+        return self._run(st, op, lambda: ImageDepth(
+            2.0, nsigma=3.0, napers=20, niters=2, mask_pad=o % 3,
+            overlap=bool(o % 2), seed=o, progress_bar=False)(data, mask))
 
     # lazily evaluated properties / later calls of retained objects
     def _s_actor_read(self, st, op, data, mask, error):
